@@ -61,7 +61,8 @@ def run(ctx):
     tabs = g711.parse_tables(lines)
     changed = ctx.set_generated("G711Tables.lean", g711.lean_tables(tabs))
     ctx.notes["generated_tables_changed"] = changed
-    failed = ctx.lean_stage(["SfProps.C20"])
+    ctx.lean_modules = ["SfProps.C20", "SfProps.C20Quant"]
+    failed = ctx.lean_stage(ctx.lean_modules)
 
     found_input = False
     # ---- 2. exhaustive correspondence, every entry point ----
